@@ -38,8 +38,9 @@ def pos(s, t):
 
 @contract('_check_store_handle')
 def _(token):
-    requires(token != None and token.store_handle != None)
-    ensures(result is token.store_handle)
+    requires(token != None)
+    raises('ValueError', when=token.store_handle is None)
+    ensures(result is token.store_handle and result != None)
     modifies()
 
 @contract('TokenStore.get_index')
@@ -199,6 +200,7 @@ def _(self, a, b):
     ensures(forall(lambda i, k: implies(0 <= i and i <= k and k <= len(self._blocks), sel(self.g_off, i) <= sel(self.g_off, k)), (sel(self.g_off, i), sel(self.g_off, k))))
     ensures(self.g_vlen == sel(self.g_off, len(self._blocks)) and self._len == old(self._len))
     ensures(SizesOK(self))
+    ensures(forall(lambda t: as_ref(t, 'Token').store_handle is old(as_ref(t, 'Token').store_handle) or old(exists(lambda i, j: 0 <= i and i < len(self._blocks) and 0 <= j and j < len(self._blocks[i].tokens) and self._blocks[i].tokens[j] == t))))
     ensures(forall(lambda i, j: implies(0 <= i and i < len(self._blocks) and 0 <= j and j < len(self._blocks[i].tokens), sel(self.g_view, sel(self.g_off, i) + j) == self._blocks[i].tokens[j]), self._blocks[i].tokens[j]))
     ensures(self.g_vlen == old(self.g_vlen) and self.g_view == old(self.g_view))
 
@@ -245,6 +247,7 @@ def _(self, block):
     modifies('*')
     ensures(Shape(self) and Idx(self, len(self._blocks)) and Hand(self) and NonEmpty(self) and SizesOK(self) and InvOff(self))
     ensures(self.g_vlen == old(self.g_vlen) and self.g_view == old(self.g_view) and self._len == old(self._len))
+    ensures(forall(lambda t: as_ref(t, 'Token').store_handle is old(as_ref(t, 'Token').store_handle) or old(exists(lambda i, j: 0 <= i and i < len(self._blocks) and 0 <= j and j < len(self._blocks[i].tokens) and self._blocks[i].tokens[j] == t))))
     # lists that were not token lists of the store before the call are untouched
     ensures(forall(lambda l: implies(0 < l and l < old_alloc() and old(forall(lambda i: implies(0 <= i and i < len(self._blocks), self._blocks[i].tokens != l), self._blocks[i])),
                 len(as_list(l, 'Token')) == old(len(as_list(l, 'Token'))))))
@@ -260,6 +263,12 @@ def OHB(t):
 @macro
 def OHI(t):
     return sel(old(fld('_StoreHandle.index')), sel(old(fld('Token.store_handle')), t))
+
+@macro
+def FR(s, tokens):   # frame of _splice on handles: only tokens of this store (at entry) or offered tokens may change their handle
+    return forall(lambda t: as_ref(t, 'Token').store_handle is old(as_ref(t, 'Token').store_handle)
+                or old(exists(lambda i, j: 0 <= i and i < len(s._blocks) and 0 <= j and j < len(s._blocks[i].tokens) and s._blocks[i].tokens[j] == t))
+                or old(exists(lambda k: 0 <= k and k < len(tokens) and tokens[k] == t)))
 
 @macro
 def A(s, start):      # absolute position of the first removed token (pre-state)
@@ -291,7 +300,8 @@ def _(self, tokens, start, end):
                 (start[0] < tokens[k].store_handle.block.index or (start[0] == tokens[k].store_handle.block.index and start[1] <= tokens[k].store_handle.index))
                 and (tokens[k].store_handle.block.index < end[0] or (tokens[k].store_handle.block.index == end[0] and tokens[k].store_handle.index < end[1])))), tokens[k]))
     # ---- loop 1: same-block removal
-    invariant(1, forall(lambda t: implies(old(as_ref(t, 'Token').store_handle) is None, as_ref(t, 'Token').store_handle is None)),
+    invariant(1, FR(self, tokens),
+                 forall(lambda t: implies(old(as_ref(t, 'Token').store_handle) is None, as_ref(t, 'Token').store_handle is None)),
                  forall(lambda j: implies(start_j <= j and j < start_j + K, block.tokens[j].store_handle is None), block.tokens[j]),
                  forall(lambda i, j: implies(0 <= i and i < len(self._blocks) and 0 <= j and j < len(self._blocks[i].tokens) and not (i == start_i and start_j <= j and j < start_j + K),
                         self._blocks[i].tokens[j].store_handle is old(self._blocks[i].tokens[j].store_handle)), self._blocks[i].tokens[j]))
@@ -300,6 +310,10 @@ def _(self, tokens, start, end):
                 ite(k < A(self, start) + old(len(tokens)), sel(old(elems(tokens)), k - A(self, start)), sel(old(self.g_view), k - old(len(tokens)) + (Bq(self, end) - A(self, start))))))
     after_assign('block.tokens[start_j:end_j]', 'set', 'g_off', lambda k: ite(k <= start[0], sel(old(self.g_off), k), sel(old(self.g_off), k) + old(len(tokens)) - (Bq(self, end) - A(self, start))))
     after_assign('block.tokens[start_j:end_j]', 'setint', 'g_vlen', old(self.g_vlen) + old(len(tokens)) - (Bq(self, end) - A(self, start)))
+    after_assign('block.tokens[start_j:end_j]', 'assert', forall(lambda i, j: implies(0 <= i and i < len(self._blocks) and i != start[0] and 0 <= j and j < len(self._blocks[i].tokens),
+                sel(self.g_view, sel(self.g_off, i) + j) == self._blocks[i].tokens[j]), self._blocks[i].tokens[j]))
+    after_assign('block.tokens[start_j:end_j]', 'assert', forall(lambda j: implies(0 <= j and j < len(self._blocks[start[0]].tokens),
+                sel(self.g_view, sel(self.g_off, start[0]) + j) == self._blocks[start[0]].tokens[j]), self._blocks[start[0]].tokens[j]))
     after_assign('self._blocks[start_i:end_i + 1]', 'set', 'g_view', lambda k: ite(k < A(self, start), sel(old(self.g_view), k),
                 ite(k < A(self, start) + old(len(tokens)), sel(old(elems(tokens)), k - A(self, start)), sel(old(self.g_view), k - old(len(tokens)) + (Bq(self, end) - A(self, start))))))
     after_assign('self._blocks[start_i:end_i + 1]', 'set', 'g_off', lambda k: ite(k <= start[0], sel(old(self.g_off), k), sel(old(self.g_off), k + (end[0] - start[0])) + old(len(tokens)) - (Bq(self, end) - A(self, start))))
@@ -335,25 +349,30 @@ def _(self, tokens, start, end):
     before_call('TokenStore._update_block', 'assert', implies(start[0] < end[0],
         forall(lambda i, j: implies(start[0] < i and i < len(self._blocks) and 0 <= j and j < len(self._blocks[i].tokens), sel(self.g_view, sel(self.g_off, i) + j) == self._blocks[i].tokens[j]), self._blocks[i].tokens[j])))
     # ---- loop 3: fast-path re-index
-    invariant(3, forall(lambda j: implies(start_j <= j and j < start_j + K, block.tokens[j].store_handle != None and block.tokens[j].store_handle.block is block and block.tokens[j].store_handle.index == j), block.tokens[j]),
+    invariant(3, FR(self, tokens),
+                 forall(lambda j: implies(start_j <= j and j < start_j + K, block.tokens[j].store_handle != None and block.tokens[j].store_handle.block is block and block.tokens[j].store_handle.index == j), block.tokens[j]),
                  forall(lambda t: as_ref(t, 'Token').store_handle is pre(as_ref(t, 'Token').store_handle) or exists(lambda j: start_j <= j and j < start_j + K and block.tokens[j] == t)))
     # ---- loops 4..7: multi-block removal
-    invariant(4, forall(lambda t: implies(old(as_ref(t, 'Token').store_handle) is None, as_ref(t, 'Token').store_handle is None)),
+    invariant(4, FR(self, tokens),
+                 forall(lambda t: implies(old(as_ref(t, 'Token').store_handle) is None, as_ref(t, 'Token').store_handle is None)),
                  forall(lambda j: implies(start_j <= j and j < start_j + K, self._blocks[start_i].tokens[j].store_handle is None), self._blocks[start_i].tokens[j]),
                  forall(lambda i, j: implies(0 <= i and i < len(self._blocks) and 0 <= j and j < len(self._blocks[i].tokens) and not (i == start_i and start_j <= j and j < start_j + K),
                         self._blocks[i].tokens[j].store_handle is old(self._blocks[i].tokens[j].store_handle)), self._blocks[i].tokens[j]))
-    invariant(5, forall(lambda t: implies(old(as_ref(t, 'Token').store_handle) is None, as_ref(t, 'Token').store_handle is None)),
+    invariant(5, FR(self, tokens),
+                 forall(lambda t: implies(old(as_ref(t, 'Token').store_handle) is None, as_ref(t, 'Token').store_handle is None)),
                  len_removed == len(self._blocks[start_i].tokens) - start_j + end_j + sel(self.g_off, start_i + 1 + K) - sel(self.g_off, start_i + 1),
                  forall(lambda i, j: implies(0 <= i and i < len(self._blocks) and 0 <= j and j < len(self._blocks[i].tokens) and ((i == start_i and start_j <= j) or (start_i < i and i < start_i + 1 + K)),
                         self._blocks[i].tokens[j].store_handle is None), self._blocks[i].tokens[j]),
                  forall(lambda i, j: implies(0 <= i and i < len(self._blocks) and 0 <= j and j < len(self._blocks[i].tokens) and not ((i == start_i and start_j <= j) or (start_i < i and i < start_i + 1 + K)),
                         self._blocks[i].tokens[j].store_handle is old(self._blocks[i].tokens[j].store_handle)), self._blocks[i].tokens[j]))
-    invariant(6, forall(lambda t: implies(old(as_ref(t, 'Token').store_handle) is None, as_ref(t, 'Token').store_handle is None)),
+    invariant(6, FR(self, tokens),
+                 forall(lambda t: implies(old(as_ref(t, 'Token').store_handle) is None, as_ref(t, 'Token').store_handle is None)),
                  forall(lambda i2, j: implies(0 <= i2 and i2 < len(self._blocks) and 0 <= j and j < len(self._blocks[i2].tokens) and ((i2 == start_i and start_j <= j) or (start_i < i2 and i2 < i) or (i2 == i and j < K)),
                         self._blocks[i2].tokens[j].store_handle is None), self._blocks[i2].tokens[j]),
                  forall(lambda i2, j: implies(0 <= i2 and i2 < len(self._blocks) and 0 <= j and j < len(self._blocks[i2].tokens) and not ((i2 == start_i and start_j <= j) or (start_i < i2 and i2 < i) or (i2 == i and j < K)),
                         self._blocks[i2].tokens[j].store_handle is old(self._blocks[i2].tokens[j].store_handle)), self._blocks[i2].tokens[j]))
-    invariant(7, forall(lambda t: implies(old(as_ref(t, 'Token').store_handle) is None, as_ref(t, 'Token').store_handle is None)),
+    invariant(7, FR(self, tokens),
+                 forall(lambda t: implies(old(as_ref(t, 'Token').store_handle) is None, as_ref(t, 'Token').store_handle is None)),
                  forall(lambda i, j: implies(0 <= i and i < len(self._blocks) and 0 <= j and j < len(self._blocks[i].tokens) and ((i == start_i and start_j <= j) or (start_i < i and i < end_i) or (i == end_i and j < K)),
                         self._blocks[i].tokens[j].store_handle is None), self._blocks[i].tokens[j]),
                  forall(lambda i, j: implies(0 <= i and i < len(self._blocks) and 0 <= j and j < len(self._blocks[i].tokens) and not ((i == start_i and start_j <= j) or (start_i < i and i < end_i) or (i == end_i and j < K)),
@@ -365,6 +384,23 @@ def _(self, tokens, start, end):
     ensures(InvOff(self))
     ensures(self.g_vlen == old(self.g_vlen) + old(len(tokens)) - (Bq(self, end) - A(self, start)))
     ensures(self._len == self.g_vlen)
+    ensures(SizesOK(self))
+    # refinement: the view is the old view with [A, B) replaced by `tokens`
+    ensures(forall(lambda k: implies(0 <= k and k < A(self, start), sel(self.g_view, k) == sel(old(self.g_view), k)), sel(self.g_view, k)))
+    ensures(forall(lambda k: implies(A(self, start) <= k and k < A(self, start) + old(len(tokens)), sel(self.g_view, k) == sel(old(elems(tokens)), k - A(self, start))), sel(self.g_view, k)))
+    ensures(forall(lambda k: implies(A(self, start) + old(len(tokens)) <= k and k < self.g_vlen, sel(self.g_view, k) == sel(old(self.g_view), k - old(len(tokens)) + (Bq(self, end) - A(self, start)))), sel(self.g_view, k)))
+    # removed and not re-inserted tokens are detached (block coordinates of the entry state)
+    ensures(forall(lambda i, j: implies(0 <= i and i < old(len(self._blocks)) and 0 <= j and j < old(len(self._blocks[i].tokens))
+                and (start[0] < i or (start[0] == i and start[1] <= j)) and (i < end[0] or (i == end[0] and j < end[1])),
+                as_ref(old(self._blocks[i].tokens[j]), 'Token').store_handle is None
+                or exists(lambda k: 0 <= k and k < old(len(tokens)) and sel(old(elems(tokens)), k) == old(self._blocks[i].tokens[j]))), old(self._blocks[i].tokens[j])))
+    # nothing else is touched: a token whose handle changed was in this store at entry or was offered in `tokens`
+    ensures(FR(self, tokens))
+    ensures(Inv2(self))
+    # a normal return means every offered token was free or strictly inside the removed range (the must-refuse half of C19)
+    ensures(forall(lambda k: implies(0 <= k and k < old(len(tokens)), OH(sel(old(elems(tokens)), k)) == 0 or (
+                (start[0] < sel(old(fld('_StoreBlock.index')), OHB(sel(old(elems(tokens)), k))) or (start[0] == sel(old(fld('_StoreBlock.index')), OHB(sel(old(elems(tokens)), k))) and start[1] <= OHI(sel(old(elems(tokens)), k))))
+                and (sel(old(fld('_StoreBlock.index')), OHB(sel(old(elems(tokens)), k))) < end[0] or (sel(old(fld('_StoreBlock.index')), OHB(sel(old(elems(tokens)), k))) == end[0] and OHI(sel(old(elems(tokens)), k)) < end[1])))), sel(old(elems(tokens)), k)))
 
 # ---------------------------------------------------------------- block construction
 @macro
@@ -463,6 +499,7 @@ def _(self, block):
     ensures(Shape(self) and Idx(self, len(self._blocks)) and Hand(self) and NonEmpty(self) and SizesOK(self))
     ensures(InvOff(self))
     ensures(self.g_vlen == old(self.g_vlen) and self.g_view == old(self.g_view) and self._len == old(self._len))
+    ensures(forall(lambda t: as_ref(t, 'Token').store_handle is old(as_ref(t, 'Token').store_handle) or old(exists(lambda i, j: 0 <= i and i < len(self._blocks) and 0 <= j and j < len(self._blocks[i].tokens) and self._blocks[i].tokens[j] == t))))
     ensures(forall(lambda l: implies(0 < l and l < old_alloc() and old(forall(lambda i: implies(0 <= i and i < len(self._blocks), self._blocks[i].tokens != l), self._blocks[i])),
                 len(as_list(l, 'Token')) == old(len(as_list(l, 'Token'))))))
 
@@ -489,3 +526,85 @@ def _(cls, tokens):
     ensures(InvView(result))
     ensures(result.g_vlen == len(tokens) and forall(lambda k: implies(0 <= k and k < len(tokens), sel(result.g_view, k) == tokens[k]), tokens[k]))
     ensures(forall(lambda t: as_ref(t, 'Token').store_handle is old(as_ref(t, 'Token').store_handle) or exists(lambda j: 0 <= j and j < len(tokens) and tokens[j] == t)))
+
+# ---------------------------------------------------------------- public mutators, specified on the abstract view
+@macro
+def OfferOK(s, tokens):   # what a caller must guarantee about offered tokens (the code cannot check it)
+    return (tokens != None
+        and forall(lambda k: implies(0 <= k and k < len(tokens), tokens[k] != None and allocated(tokens[k]) and tokens[k].size != None and allocated(tokens[k].size)
+                and (tokens[k].store_handle is None or InStore(s, tokens[k]))), tokens[k])
+        and forall(lambda j, k: implies(0 <= j and j < k and k < len(tokens), tokens[j] != tokens[k]), (tokens[j], tokens[k]))
+        and forall(lambda i: implies(0 <= i and i < len(s._blocks), s._blocks[i].tokens is not tokens), s._blocks[i]))
+
+@macro
+def Spliced(s, tokens, a, b):   # view' == old view[:a] ++ old tokens ++ old view[b:]
+    return (s.g_vlen == old(s.g_vlen) + old(len(tokens)) - (b - a)
+        and forall(lambda k: implies(0 <= k and k < a, sel(s.g_view, k) == sel(old(s.g_view), k)), sel(s.g_view, k))
+        and forall(lambda k: implies(a <= k and k < a + old(len(tokens)), sel(s.g_view, k) == sel(old(elems(tokens)), k - a)), sel(s.g_view, k))
+        and forall(lambda k: implies(a + old(len(tokens)) <= k and k < s.g_vlen, sel(s.g_view, k) == sel(old(s.g_view), k - old(len(tokens)) + (b - a))), sel(s.g_view, k)))
+
+@macro
+def Refusal():
+    return ('Token.store_handle', '_StoreBlock.tokens', '_StoreBlock.index', '_StoreBlock.size', '_StoreBlock.last_newline_index', 'TokenStore._blocks', 'TokenStore._len', 'Position.line', 'Position.column', 'list[Token]', 'list[_StoreBlock]')
+
+@contract('TokenStore.splice')
+def _(self, tokens, ref, del_end):
+    requires(Inv2(self) and SizesOK(self) and OfferOK(self, tokens))
+    requires(ref is None or ref.store_handle is None or InStore(self, ref))
+    requires(del_end is None or del_end.store_handle is None or InStore(self, del_end))
+    requires(implies(ref != None and del_end != None and ref.store_handle != None and del_end.store_handle != None, pos(self, ref) <= pos(self, del_end)))
+    raises('ValueError', 'Token.store_handle', '_StoreBlock.tokens', '_StoreBlock.index', '_StoreBlock.size', '_StoreBlock.last_newline_index', 'TokenStore._blocks', 'TokenStore._len', 'Position.line', 'Position.column', 'list[Token]', 'list[_StoreBlock]')
+    ensures(Inv2(self) and SizesOK(self))
+    ensures(Spliced(self, tokens, old(ite(ref is None, 0, pos(self, ref))), old(ite(del_end is None, ite(ref is None, 0, pos(self, ref)), pos(self, del_end) + 1))))
+    ensures(FR(self, tokens))
+    # a normal return means no reference was free
+    ensures(old(ref is None or ref.store_handle != None) and old(del_end is None or del_end.store_handle != None))
+    # ... and every offered token was free or strictly inside the removed range: re-inserting a token that lives elsewhere is always refused
+    ensures(forall(lambda k: implies(0 <= k and k < old(len(tokens)), OH(sel(old(elems(tokens)), k)) == 0 or (
+                old(ite(ref is None, 0, pos(self, ref))) <= sel(old(self.g_off), sel(old(fld('_StoreBlock.index')), OHB(sel(old(elems(tokens)), k)))) + OHI(sel(old(elems(tokens)), k))
+                and sel(old(self.g_off), sel(old(fld('_StoreBlock.index')), OHB(sel(old(elems(tokens)), k)))) + OHI(sel(old(elems(tokens)), k)) < old(ite(del_end is None, ite(ref is None, 0, pos(self, ref)), pos(self, del_end) + 1)))), sel(old(elems(tokens)), k)))
+
+@contract('TokenStore.insert_after')
+def _(self, ref, tokens):
+    requires(Inv2(self) and SizesOK(self) and OfferOK(self, tokens))
+    requires(ref is None or ref.store_handle is None or InStore(self, ref))
+    raises('ValueError', 'Token.store_handle', '_StoreBlock.tokens', '_StoreBlock.index', '_StoreBlock.size', '_StoreBlock.last_newline_index', 'TokenStore._blocks', 'TokenStore._len', 'Position.line', 'Position.column', 'list[Token]', 'list[_StoreBlock]')
+    ensures(Inv2(self) and SizesOK(self))
+    ensures(Spliced(self, tokens, old(ite(ref is None, 0, pos(self, ref) + 1)), old(ite(ref is None, 0, pos(self, ref) + 1))))
+    ensures(FR(self, tokens))
+    ensures(old(ref is None or ref.store_handle != None))
+
+@contract('TokenStore.insert_before')
+def _(self, ref, tokens):
+    requires(Inv2(self) and SizesOK(self) and OfferOK(self, tokens))
+    requires(ref is None or ref.store_handle is None or InStore(self, ref))
+    raises('ValueError', 'Token.store_handle', '_StoreBlock.tokens', '_StoreBlock.index', '_StoreBlock.size', '_StoreBlock.last_newline_index', 'TokenStore._blocks', 'TokenStore._len', 'Position.line', 'Position.column', 'list[Token]', 'list[_StoreBlock]')
+    ensures(Inv2(self) and SizesOK(self))
+    ensures(Spliced(self, tokens, old(ite(ref is None, 0, pos(self, ref))), old(ite(ref is None, 0, pos(self, ref)))))
+    ensures(FR(self, tokens))
+
+@contract('TokenStore.replace')
+def _(self, token, repl):
+    requires(Inv2(self) and SizesOK(self))
+    requires(token != None and (token.store_handle is None or InStore(self, token)))
+    requires(repl != None and allocated(repl) and repl.size != None and allocated(repl.size) and (repl.store_handle is None or InStore(self, repl)))
+    raises('ValueError', 'Token.store_handle', '_StoreBlock.tokens', '_StoreBlock.index', '_StoreBlock.size', '_StoreBlock.last_newline_index', 'TokenStore._blocks', 'TokenStore._len', 'Position.line', 'Position.column', 'list[_StoreBlock]')
+    ensures(Inv2(self) and SizesOK(self))
+    ensures(self.g_vlen == old(self.g_vlen) and sel(self.g_view, old(pos(self, token))) == repl)
+    ensures(forall(lambda k: implies(0 <= k and k < self.g_vlen and k != old(pos(self, token)), sel(self.g_view, k) == sel(old(self.g_view), k)), sel(self.g_view, k)))
+    ensures(old(token.store_handle != None))
+    # re-inserting a token that lives elsewhere in the store is always refused
+    ensures(old(repl.store_handle is None or repl is token))
+
+@contract('TokenStore.remove')
+def _(self, start, end):
+    requires(Inv2(self) and SizesOK(self))
+    requires(start != None and (start.store_handle is None or InStore(self, start)))
+    requires(end is None or end.store_handle is None or InStore(self, end))
+    requires(implies(end != None and start.store_handle != None and end.store_handle != None, pos(self, start) <= pos(self, end)))
+    raises('ValueError', 'Token.store_handle', '_StoreBlock.tokens', '_StoreBlock.index', '_StoreBlock.size', '_StoreBlock.last_newline_index', 'TokenStore._blocks', 'TokenStore._len', 'Position.line', 'Position.column', 'list[_StoreBlock]')
+    ensures(Inv2(self) and SizesOK(self))
+    ensures(self.g_vlen == old(self.g_vlen) - (old(ite(end is None, pos(self, start), pos(self, end))) + 1 - old(pos(self, start))))
+    ensures(forall(lambda k: implies(0 <= k and k < old(pos(self, start)), sel(self.g_view, k) == sel(old(self.g_view), k)), sel(self.g_view, k)))
+    ensures(forall(lambda k: implies(old(pos(self, start)) <= k and k < self.g_vlen, sel(self.g_view, k) == sel(old(self.g_view), k + (old(ite(end is None, pos(self, start), pos(self, end))) + 1 - old(pos(self, start))))), sel(self.g_view, k)))
+    ensures(old(start.store_handle != None))
